@@ -78,6 +78,7 @@ def run_case(cs):
                         with open(os.path.join(root, rel), "wb") as f:
                             f.write(data)
     prior = rng.choice([0, 0, 1, 2, 3])
+    altered = set()
     if huge:
         # the record lookup is linear per file: several generations of >4000 records take minutes, which is slow, not hung
         prior = 0
@@ -97,7 +98,9 @@ def run_case(cs):
             cs.skip("prior-create-internal-error")  # other properties judge this
             return
         for _ in range(rng.randint(0, 2)):
-            world.mutate(rng, root, tree, rng.choice(["add_file", "add_file", "delete_file", "touch"]))
+            mm = world.mutate(rng, root, tree, rng.choice(["add_file", "add_file", "delete_file", "touch", "flip"]))
+            if mm and mm["kind"] == "flip":
+                altered.add(mm["path"])  # the final run fails its verification (exit 11) and still records everything
     if not child_first:
         seal_children()
     if rng.random() < 0.25:
@@ -178,7 +181,9 @@ def run_case(cs):
         cs.evaluated()
         cs.violation(classify.internal_key(r), classify.internal_sig(r, "create-" + mode), {"steps": steps, **r.brief()})
         return
-    if r.exit not in (0, 10, 30):
+    if r.exit == 11 and altered:
+        cs.count("final_runs_failing_verification")
+    elif r.exit not in (0, 10, 30):
         if r.exit in (31, 32, 33) and any(classify.has_linesep(k) for k in list(ondisk) + nested):
             cs.evaluated()
             cs.violation("line-separator-in-text-indented", {"kind": "text-mangled-after-line-separator", "field": "chain-path", "mode": mode}, {"exit": r.exit, "steps": steps})
@@ -214,7 +219,8 @@ def run_case(cs):
                                 if dg != refhash.digest(f, data):
                                     cs.violation("record-digest-wrong", {"kind": "digest", "mode": mode, "format": f}, {"path": rel, "got": dg})
                         for f in set(formats):
-                            if f not in ents and r.exit in (0, 10, 30):
+                            # (a file whose own verification failed gets no digest in a format it is not yet recorded in)
+                            if f not in ents and (r.exit in (0, 10, 30) or rel not in altered):
                                 cs.violation("requested-format-missing", {"kind": "format-missing", "mode": mode, "format": f}, {"path": rel, "have": sorted(ents), "steps": steps})
     cs.evaluated()
     cs.count("records_compared", nrec)
